@@ -542,7 +542,7 @@ fn roundtrip_job<K: BoolKind>(seed: u64, cases: u32, rep: &mut Report) {
 
 pub fn run(cfg: &Cfg) -> i32 {
     let start = Instant::now();
-    if let Some(path) = &cfg.replay {
+    if let Some(path) = cfg.replay.as_ref().filter(|p| replay_case_is(p, |c| c["case"].is_object() || c["input_hex"].is_string())) {
         let v: serde_json::Value = serde_json::from_str(&std::fs::read_to_string(path).expect("replay file")).expect("json");
         let case = &v["case"];
         let kind = case["kind"].as_str().unwrap_or("bdd").to_string();
